@@ -411,17 +411,31 @@ Proof.
 Qed.
 
 (** * Histograms (C19_hist) *)
-Lemma hist_kwargs_pass : kw_in "bins" NP_HIST_VALID_KWARGS = true /\ kw_in "range" NP_HIST_VALID_KWARGS = true /\
+Lemma hist_kwargs_pass :
+  kw_in "bins" NP_HIST_VALID_KWARGS = true /\ kw_in "range" NP_HIST_VALID_KWARGS = true /\
+  kw_in "density" NP_HIST_VALID_KWARGS = true /\ kw_in "weights" NP_HIST_VALID_KWARGS = true /\
+  kw_in "cumulative" NP_HIST_VALID_KWARGS = false /\
   kw_in "bins" HIST_VALID_KWARGS = true /\ kw_in "range" HIST_VALID_KWARGS = true /\
-  kw_in "label" HIST_VALID_KWARGS = true.
+  kw_in "density" HIST_VALID_KWARGS = true /\ kw_in "weights" HIST_VALID_KWARGS = true /\
+  kw_in "cumulative" HIST_VALID_KWARGS = true /\ kw_in "label" HIST_VALID_KWARGS = true.
 Proof. repeat split; reflexivity. Qed.
 
-Lemma restrict_same_binning : forall samples kw,
-  hist_edges samples (restrict HIST_VALID_KWARGS kw) = hist_edges samples (restrict NP_HIST_VALID_KWARGS kw) /\
-  hist_edges samples (restrict NP_HIST_VALID_KWARGS kw) = hist_edges samples kw.
+(** every modelled keyword reaches ax.hist; numpy.histogram gets all but label and cumulative,
+    neither of which it reads *)
+Lemma restrict_hist_id : forall kw, restrict HIST_VALID_KWARGS kw = kw.
 Proof.
-  intros samples kw. destruct hist_kwargs_pass as (H1 & H2 & H3 & H4 & _).
-  unfold hist_edges, restrict. cbn [kw_bins kw_range]. rewrite H1, H2, H3, H4. split; reflexivity.
+  intros [b r l d w c]. destruct hist_kwargs_pass as (_ & _ & _ & _ & _ & H1 & H2 & H3 & H4 & H5 & H6).
+  unfold restrict. cbn [kw_bins kw_range kw_label kw_density kw_weights kw_cumulative].
+  rewrite H1, H2, H3, H4, H5, H6. reflexivity.
+Qed.
+
+Lemma restrict_np_same : forall samples kw,
+  np_histogram samples (restrict NP_HIST_VALID_KWARGS kw) = np_histogram samples kw.
+Proof.
+  intros samples [b r l d w c]. destruct hist_kwargs_pass as (H1 & H2 & H3 & H4 & _).
+  unfold np_histogram, hist_edges, weighted, restrict.
+  cbn [kw_bins kw_range kw_label kw_density kw_weights kw_cumulative].
+  rewrite H1, H2, H3, H4. reflexivity.
 Qed.
 
 Fixpoint sum_nat (l : list nat) : nat := match l with [] => 0%nat | x :: r => (x + sum_nat r)%nat end.
@@ -492,47 +506,140 @@ Proof.
   cbn [List.length]. rewrite (IH e1). reflexivity.
 Qed.
 
-Lemma bars_heights : forall edges counts, List.length edges = S (List.length counts) ->
-  map (fun b => snd b) (bars_of edges counts) = map Qn counts /\
-  map (fun b => fst (fst b)) (bars_of edges counts) = removelast edges.
+Lemma hist_sums_length : forall ws rest e0, List.length (hist_sums_from ws e0 rest) = List.length rest.
+Proof.
+  intros ws. induction rest as [|e1 r IH]; intros e0; [reflexivity|].
+  destruct r as [|e2 r']; [reflexivity|].
+  change (hist_sums_from ws e0 (e1 :: e2 :: r'))
+    with (bin_sum (half_open e0 e1) ws :: hist_sums_from ws e1 (e2 :: r')).
+  cbn [List.length]. rewrite (IH e1). reflexivity.
+Qed.
+
+Lemma widths_length : forall rest e0, List.length (widths (e0 :: rest)) = List.length rest.
+Proof.
+  induction rest as [|e1 r IH]; intros e0; [reflexivity|].
+  change (widths (e0 :: e1 :: r)) with ((e1 - e0) :: widths (e1 :: r)). cbn [List.length]. now rewrite IH.
+Qed.
+
+Lemma bars_heights : forall edges heights, List.length edges = S (List.length heights) ->
+  map (fun b => snd b) (bars_of edges heights) = heights /\
+  map (fun b => fst (fst b)) (bars_of edges heights) = removelast edges /\
+  map (fun b => snd (fst b)) (bars_of edges heights) = widths edges.
 Proof.
   induction edges as [|e0 rest IH]; intros counts H; [discriminate|].
   destruct rest as [|e1 r].
   - destruct counts; [|discriminate]. simpl. auto.
   - destruct counts as [|c cs]; [discriminate|].
     simpl in H. injection H as H.
-    destruct (IH cs) as [I1 I2]; [simpl; f_equal; exact H|].
-    change (bars_of (e0 :: e1 :: r) (c :: cs)) with ((e0, e1 - e0, Qn c) :: bars_of (e1 :: r) cs).
-    cbn [map]. rewrite I1. split; [reflexivity|].
+    destruct (IH cs) as (I1 & I2 & I3); [simpl; f_equal; exact H|].
+    change (bars_of (e0 :: e1 :: r) (c :: cs)) with ((e0, e1 - e0, c) :: bars_of (e1 :: r) cs).
+    cbn [map]. rewrite I1, I3. split; [reflexivity|]. split; [|reflexivity].
     change (removelast (e0 :: e1 :: r)) with (e0 :: removelast (e1 :: r)). rewrite <- I2. reflexivity.
 Qed.
 
+(** without weights the bin contents are the plain counts *)
+Lemma bin_sum_count : forall (p : Q -> bool) s,
+  bin_sum p (combine s (repeat 1 (List.length s))) == Qn (count_if p s).
+Proof.
+  intros p. induction s as [|a s IH]; [reflexivity|].
+  cbn [List.length repeat combine]. unfold bin_sum in *. cbn [fold_right fst snd]. unfold count_if in *. cbn [filter].
+  destruct (p a).
+  - cbn [List.length]. rewrite Qn_S, IH. ring.
+  - exact IH.
+Qed.
+
+Lemma hist_sums_counts : forall samples kw e, kw_weights kw = None ->
+  Forall2 Qeq (hist_sums (weighted samples kw) e) (map Qn (hist_counts samples e)).
+Proof.
+  intros samples kw e H. unfold weighted. rewrite H. destruct e as [|e0 rest]; [constructor|]. simpl hist_sums. simpl hist_counts.
+  revert e0. induction rest as [|e1 r IH]; intros e0; [constructor|].
+  destruct r as [|e2 r'].
+  - simpl. constructor; [apply bin_sum_count|constructor].
+  - change (hist_sums_from (combine samples (repeat 1 (List.length samples))) e0 (e1 :: e2 :: r'))
+      with (bin_sum (half_open e0 e1) (combine samples (repeat 1 (List.length samples)))
+            :: hist_sums_from (combine samples (repeat 1 (List.length samples))) e1 (e2 :: r')).
+    change (hist_counts_from samples e0 (e1 :: e2 :: r'))
+      with (count_if (half_open e0 e1) samples :: hist_counts_from samples e1 (e2 :: r')).
+    cbn [map]. constructor; [apply bin_sum_count|apply IH].
+Qed.
+
+(** density=True: the bars integrate to one *)
+Lemma density_integral : forall (T : Q) raw ws, ~ T == 0 -> Forall (fun w => ~ w == 0) ws ->
+  List.length raw = List.length ws ->
+  qsum (map2 Qmult (map2 (fun r w => r / w / T) raw ws) ws) == qsum raw / T.
+Proof.
+  intros T raw. induction raw as [|r raw IH]; intros [|w ws] HT F L; simpl in *; try discriminate.
+  - field. exact HT.
+  - inversion F; subst. rewrite IH; [|exact HT|assumption|lia]. field. split; assumption.
+Qed.
+
+Lemma densities_integrate : forall raw e0 rest, ~ qsum raw == 0 ->
+  Forall (fun w => ~ w == 0) (widths (e0 :: rest)) -> List.length raw = List.length rest ->
+  qsum (map2 Qmult (densities raw (e0 :: rest)) (widths (e0 :: rest))) == 1.
+Proof.
+  intros raw e0 rest HT F L. unfold densities.
+  rewrite density_integral; [field; exact HT|exact HT|exact F|rewrite widths_length; exact L].
+Qed.
+
+(** cumulative=True: the last bar is the total *)
+Lemma cumsum_last : forall l a d, l <> [] -> last (cumsum_from a l) d == a + qsum l.
+Proof.
+  induction l as [|x l IH]; intros a d H; [congruence|].
+  destruct l as [|y l'].
+  - simpl. ring.
+  - change (cumsum_from a (x :: y :: l')) with ((a + x) :: cumsum_from (a + x) (y :: l')).
+    change (last ((a + x) :: cumsum_from (a + x) (y :: l')) d) with (last (cumsum_from (a + x) (y :: l')) d).
+    rewrite IH by congruence. simpl. ring.
+Qed.
+
 Lemma hist_lemma : forall h,
-  (* what is returned and what is drawn are the same binning of the same samples *)
-  (forall n e, hist_returned h = Some (n, e) -> hist_bars h = Some (bars_of e n)) /\
   (hist_returned h = None -> hist_bars h = None) /\
   forall n e, hist_returned h = Some (n, e) ->
-    hist_edges (hi_samples h) (hi_kw h) = Some e /\ n = hist_counts (hi_samples h) e /\
+    (* what is drawn is computed from the same binning of the same samples as what is returned *)
+    hist_bars h = Some (bars_of e (mpl_heights (hi_kw h) n e)) /\
+    (kw_cumulative (hi_kw h) = false -> mpl_heights (hi_kw h) n e = n) /\
+    (kw_cumulative (hi_kw h) = true ->
+       mpl_heights (hi_kw h) n e = cumsum_from 0 (if kw_density (hi_kw h) then map2 Qmult n (widths e) else n)) /\
+    (* the returned values are the (weighted) bin contents, or their densities *)
+    hist_edges (hi_samples h) (hi_kw h) = Some e /\
+    (let raw := hist_sums (weighted (hi_samples h) (hi_kw h)) e in
+     n = if kw_density (hi_kw h) then densities raw e else raw) /\
+    (kw_weights (hi_kw h) = None ->
+       Forall2 Qeq (hist_sums (weighted (hi_samples h) (hi_kw h)) e) (map Qn (hist_counts (hi_samples h) e))) /\
     (forall e0 rest, e = e0 :: rest -> rest <> [] ->
        List.length n = List.length rest /\
-       map (fun b => snd b) (bars_of e n) = map Qn n /\
-       (ascending e -> sum_nat n = count_if (closed e0 (last rest e0)) (hi_samples h))).
+       map (fun b => snd b) (bars_of e (mpl_heights (hi_kw h) n e)) = mpl_heights (hi_kw h) n e /\
+       map (fun b => fst (fst b)) (bars_of e (mpl_heights (hi_kw h) n e)) = removelast e /\
+       (ascending e ->
+          sum_nat (hist_counts (hi_samples h) e) = count_if (closed e0 (last rest e0)) (hi_samples h))).
 Proof.
-  intros h. unfold hist_returned, hist_bars, np_histogram.
-  destruct (restrict_same_binning (hi_samples h) (hi_kw h)) as [E1 E2]. rewrite E1, E2.
-  destruct (hist_edges (hi_samples h) (hi_kw h)) as [e|].
-  - split; [|split].
-    + intros n e' H. injection H as <- <-. reflexivity.
-    + intro H; discriminate.
-    + intros n e' H. injection H as <- <-. split; [reflexivity|]. split; [reflexivity|].
-      intros e0 rest -> Hne. split; [|split].
-      * simpl. apply hist_counts_length.
-      * apply bars_heights. simpl. rewrite hist_counts_length. reflexivity.
-      * intro A. simpl. apply hist_sum_from; assumption.
-  - split; [|split].
-    + intros n e H; discriminate.
-    + reflexivity.
-    + intros n e H; discriminate.
+  intros h. unfold hist_returned, hist_bars. rewrite restrict_np_same, restrict_hist_id.
+  unfold np_histogram.
+  destruct (hist_edges (hi_samples h) (hi_kw h)) as [e|]; [|split; [reflexivity|intros n e H; discriminate]].
+  split; [intro H; discriminate|].
+  intros n e' H. injection H as Hn <-. 
+  split; [rewrite Hn; reflexivity|].
+  split; [intro C; unfold mpl_heights; rewrite C; reflexivity|].
+  split; [intro C; unfold mpl_heights; rewrite C; reflexivity|].
+  split; [reflexivity|]. split; [cbv zeta; symmetry; exact Hn|].
+  split; [intro W; apply hist_sums_counts; exact W|].
+  intros e0 rest -> Hne.
+  assert (Ln : List.length n = List.length rest).
+  { rewrite <- Hn. destruct (kw_density (hi_kw h)).
+    - unfold densities. rewrite map2_length; rewrite widths_length; [reflexivity|].
+      simpl. apply hist_sums_length.
+    - simpl. apply hist_sums_length. }
+  assert (Lm : List.length (mpl_heights (hi_kw h) n (e0 :: rest)) = List.length rest).
+  { unfold mpl_heights. destruct (kw_cumulative (hi_kw h)); [|exact Ln].
+    assert (C : forall l a, List.length (cumsum_from a l) = List.length l).
+    { induction l as [|x l IH]; intros a; simpl; [reflexivity|now rewrite IH]. }
+    rewrite C. destruct (kw_density (hi_kw h)); [|exact Ln].
+    rewrite map2_length; rewrite widths_length; [reflexivity|exact Ln]. }
+  split; [exact Ln|].
+  destruct (bars_heights (e0 :: rest) (mpl_heights (hi_kw h) n (e0 :: rest))) as (B1 & B2 & _);
+    [simpl; f_equal; symmetry; exact Lm|].
+  split; [exact B1|]. split; [exact B2|].
+  intro A. simpl. apply hist_sum_from; assumption.
 Qed.
 
 (** equal-width bins over lo <= hi are in ascending order *)
